@@ -655,6 +655,57 @@ fn run_early(vname: &'static str, rules: AuthorizationRules) -> (u64, Vec<Value>
     (n, f_ref, f_panic)
 }
 
+/// A history in which a conflicted event lies in the auth chain of a power event only BEHIND an unconflicted event (found by an
+/// auditing sub-agent with a differential test): a server forks its own DAG - A re-sends her join twice concurrently (ma1,
+/// ma2) - then changes the power levels on top of ma1 (pl1, unconflicted later on), B sets a topic after pl1, and A kicks C on
+/// top of the merge of her two branches (state there: A -> ma2). Merging {A -> ma2, C -> kc} with {A -> ma1, C -> mc, topic}:
+/// the specification puts ma1 into the power sort (it is in the auth chain of kc, via pl1, and in the conflicted set).
+fn run_behind_unconflicted(vname: &'static str, rules: AuthorizationRules) -> (u64, Vec<Value>, Vec<Value>) {
+    let (mut n, mut f_ref, mut f_panic) = (0u64, vec![], vec![]);
+    let pl0 = pl_of(&[(A, 100), (B, 50)]);
+    let pl1 = pl_of(&[(A, 100), (B, 50), (C, 0)]);
+    let join = |name: &str| json!({"membership": "join", "displayname": name});
+    let mk = |id: &str, sender: &str, ty: &str, sk: &str, content: Value, auth: &[&str], ts: u64, pl: Option<Pl>| MEv {
+        id: id.to_owned(), sender: sender.to_owned(), ty: ty.to_owned(), state_key: sk.to_owned(), content, auth: auth.iter().map(|a| a.to_string()).collect(), prev: vec![], ts, pl,
+    };
+    for order in 0..2 {
+        let evs = vec![
+            mk("$1-create", A, "m.room.create", "", json!({"creator": A}), &[], 1, None),
+            mk("$ma0", A, "m.room.member", A, json!({"membership": "join"}), &["$1-create"], 2, None),
+            mk("$pl0", A, "m.room.power_levels", "", pl0.json(), &["$1-create", "$ma0"], 3, Some(pl0.clone())),
+            mk("$jr", A, "m.room.join_rules", "", json!({"join_rule": "public"}), &["$1-create", "$pl0", "$ma0"], 4, None),
+            mk("$mb", B, "m.room.member", B, json!({"membership": "join"}), &["$1-create", "$pl0", "$jr"], 5, None),
+            mk("$mc", C, "m.room.member", C, json!({"membership": "join"}), &["$1-create", "$pl0", "$jr"], 6, None),
+            mk("$ma1", A, "m.room.member", A, join("a1"), &["$1-create", "$pl0", "$ma0", "$jr"], 10, None),
+            mk("$ma2", A, "m.room.member", A, join("a2"), &["$1-create", "$pl0", "$ma0", "$jr"], 20, None),
+            mk("$pl1", A, "m.room.power_levels", "", pl1.json(), &["$1-create", "$pl0", "$ma1"], 11, Some(pl1.clone())),
+            mk("$t", B, "m.room.topic", "", json!({"topic": "t"}), &["$1-create", "$pl1", "$mb"], 12, None),
+            mk("$kc", A, "m.room.member", C, json!({"membership": "leave"}), &["$1-create", "$pl1", "$ma2", "$mc"], 30, None),
+        ];
+        let w = World { events: evs.into_iter().map(|e| (e.id.clone(), e)).collect() };
+        let set = |ids: &[&str]| -> BTreeMap<Key, String> { ids.iter().map(|i| { let e = &w.events[*i]; ((e.ty.clone(), e.state_key.clone()), e.id.clone()) }).collect() };
+        let set_a = set(&["$1-create", "$pl1", "$jr", "$mb", "$ma2", "$kc"]);
+        let set_b = set(&["$1-create", "$pl1", "$jr", "$mb", "$ma1", "$mc", "$t"]);
+        let tips = if order == 0 { vec![set_a, set_b] } else { vec![set_b, set_a] };
+        let pdus: HashMap<OwnedEventId, Pdu> = w.events.values().map(|e| { let p = pdu_ts(&e.id, &e.sender, &e.ty, Some(&e.state_key), &e.content, &e.prev, &e.auth, "!r:s", e.ts); (p.event_id.clone(), p) }).collect();
+        n += 1;
+        let want = resolve_ref(&rules, &w, &tips);
+        let describe = |got: &Value| {
+            let events: Vec<Value> = w.events.values().map(|e| json!({"event_id": e.id, "type": e.ty, "state_key": e.state_key, "auth_events": e.auth, "origin_server_ts": e.ts})).collect();
+            json!({"rules": vname, "history": "a conflicted event behind an unconflicted event in the auth chain of a power event", "events": events, "resolve_returns": got, "state_resolution_v2_gives": show(&want)})
+        };
+        match real_resolve(&rules, &pdus, &w, &tips) {
+            Err(e) => fail(if e == "panic" { &mut f_panic } else { &mut f_ref }, describe(&json!(e))),
+            Ok(got) => {
+                if got != want {
+                    fail(&mut f_ref, describe(&show(&got)));
+                }
+            }
+        }
+    }
+    (n, f_ref, f_panic)
+}
+
 /// every DAG on up to 5 nodes (edges i -> j for j < i: j must come first), keys (power, ts) from a 2x2 domain
 fn run_topo() -> (u64, Vec<Value>) {
     let (mut n, mut f) = (0u64, vec![]);
@@ -708,6 +759,7 @@ pub fn run(tier: &str) -> Report {
     };
     let handles: Vec<_> = versions.into_iter().map(|(vn, r)| std::thread::spawn(move || run_rules(vn, r, thorough))).collect();
     let early: Vec<_> = [("V1", AuthorizationRules::V1), ("V6", AuthorizationRules::V6), ("V11", AuthorizationRules::V11)].into_iter().map(|(vn, r)| std::thread::spawn(move || run_early(vn, r))).collect();
+    let behind: Vec<_> = [("V6", AuthorizationRules::V6), ("V11", AuthorizationRules::V11)].into_iter().map(|(vn, r)| std::thread::spawn(move || run_behind_unconflicted(vn, r))).collect();
     let topo_h = std::thread::spawn(run_topo);
     let (mut n, mut f_ref, mut f_det, mut f_single, mut f_panic) = (0u64, vec![], vec![], vec![], vec![]);
     let (mut nontrivial, mut samples) = (0u64, vec![]);
@@ -737,6 +789,16 @@ pub fn run(tier: &str) -> Report {
         }
     }
     n += n_early;
+    for h in behind {
+        match h.join() {
+            Ok((k, a, d)) => {
+                n += k;
+                for x in a { fail(&mut f_ref, x); }
+                for x in d { fail(&mut f_panic, x); }
+            }
+            Err(_) => fail(&mut f_panic, json!({"observed": "enumeration thread (auth chain behind an unconflicted event) panicked"})),
+        }
+    }
     let (nt, f_topo) = topo_h.join().unwrap_or((0, vec![json!({"observed": "topological sort enumeration panicked"})]));
     *super::EXTRA.lock().unwrap() = Some((
         nontrivial,
